@@ -1,5 +1,6 @@
 """C20 — texture containers: field-offset tables, magic rejection, fallible payload reads, record assembly."""
 import re
+import struct
 from mir import fmt, walk, strip_refs, norm, callee_names, call_target
 from binser import for_loops, enclosing_loops, rpo_index, affine, fmt_affine, poly
 from flow import enum_paths, PathLimit, cond_truth, guards, control_deps
@@ -276,6 +277,7 @@ def run(facts, rep, ctx):
     magic(facts, rep, R2)
     fallible(facts, rep, R3)
     length_minus(facts, rep, R3)
+    bpp_rounding_rule(facts, rep, R3)
     assembly(facts, rep, R4)
     R5 = rep.rule("R20.5", "TPL payload sizes: GX block dimensions, size = align(h,bh)*align(w,bw)*bytes/pixel, same axis order when re-linearised", floor=15)
     tpl_sizes(facts, rep, R5)
@@ -310,6 +312,53 @@ def payload_len_rule(facts, rep, R3):
                 rep.ok(R3, {"fn": fn, "payload_len_from": sorted(set(recs)) or "header words read from the stream"})
             else:
                 rep.inconc(R3, "%s: where the payload buffer's length comes from was not recognised" % fn)
+
+
+def bpp_rounding_rule(facts, rep, R3):
+    """The bytes-per-pixel table has fractional entries (ETC1 and L4 are half a byte per pixel).  The payload length
+    is bpp x width x height: rounding the table value *before* the multiplication (ceil / floor / round / trunc on
+    it, or a cast of it to an integer) doubles or zeroes the length of every 4-bit texture."""
+    BPP = "mila::texture_decoder::get_pixel_format_bpp"
+    g = facts.body(BPP)
+    if g is None:
+        return
+    frac = []
+    for blk in g.blocks:
+        for st in blk["stmts"]:
+            if st["k"] == "assign":
+                t = g.term_of_rvalue(st["rv"])
+                if t[0] == "const" and len(t) > 2 and t[2] == "f32" and isinstance(t[1], int):
+                    v = struct.unpack("<f", struct.pack("<I", t[1] & 0xFFFFFFFF))[0]
+                    if v != int(v):
+                        frac.append(v)
+    if not frac:
+        return
+    for b in facts.bodies.values():
+        if not b.name.startswith("mila::") or b.name == BPP:
+            continue
+        if not any((callee_names(t)[1] or "") == BPP for bb, t in b.calls()):
+            continue
+
+        def direct(t):
+            t = strip_refs(t)
+            return t[0] == "call" and t[1] == BPP
+        hit = None
+        for blk in b.blocks:
+            for st in blk["stmts"]:
+                if st["k"] != "assign":
+                    continue
+                for x in walk(b.term_of_rvalue(st["rv"])):
+                    if x[0] == "cast" and len(x) > 4 and x[4] == "FloatToInt" and direct(x[1]):
+                        hit = ("a cast to %s" % x[2], blk)
+        for bb, t in b.calls():
+            nm = callee_names(t)[1] or ""
+            if "f32" in nm and nm.rsplit("::", 1)[-1] in ("ceil", "floor", "round", "trunc", "round_ties_even") and t["args"] and direct(b.term_of_operand(t["args"][0])):
+                hit = (nm.rsplit("::", 1)[-1] + "()", None)
+                line = t["line"]
+        if hit:
+            rep.violation(R3, b.name, "payload-size-rounded",
+                          "%s applies %s to the bytes-per-pixel value before multiplying by width x height: the table has the fractional entry %s (4-bit formats), so such a texture's payload is read with the wrong length -- twice too long hits the end of a conforming file, zero decodes nothing" % (
+                              b.name.rsplit("::", 1)[-1], hit[0], frac[0]), "%s:%s" % (b.file, b.line))
 
 
 def crop_contract(facts, rep, R5):
